@@ -523,6 +523,8 @@ val u24 : n -> byte list
 
 val u32 : n -> byte list
 
+val u48 : n -> byte list
+
 val u64 : n -> byte list
 
 type slice = { off : n; bytes : byte list }
@@ -2009,6 +2011,36 @@ val gcase_ext_wrongtag : case list g
 val gcase_extlist : case list g
 
 val families_ext : (string * case list g) list
+
+val enc_dtls_hdr : dTLSRecordHeader -> byte list
+
+val enc_dtls_record : n -> n -> n -> n -> byte list -> byte list
+
+val enc_dtls_client_hello : dTLSClientHelloC -> byte list
+
+val enc_dtls_body : dTLSBody -> byte list
+
+val enc_dtls_hs : n -> n -> n -> n -> byte list -> byte list
+
+val gbits : n -> n g
+
+val gdch : dTLSClientHelloC g
+
+val gdbody : dTLSBody g
+
+val dbody_ty : dTLSBody -> n
+
+val gdmsg : (byte list * dTLSMessage) g
+
+val gdpayload : (n * (byte list * dTLSMessage) list) g
+
+val gdrecord : (byte list * dTLSPlaintext) g
+
+val gcase_dtls : case list g
+
+val gcase_dtls_multi : case list g
+
+val families_dtls : (string * case list g) list
 
 val all_families : (string * case list g) list
 
